@@ -283,7 +283,23 @@ func (rn *Runner) Run(h *History, faults map[int]string) *Trace {
 						}
 					}
 				}
-				if owned > 1 && !own {
+				// ... nor when the named node id already has an association of its own (take-over onto an associated
+				// node id: whose sessions the two associations then hold is not fixed either)
+				onto := false
+				if k := op.Takeover - 1; !own {
+					nid := ""
+					if k < len(smfs) {
+						nid = smfs[k].IP.String()
+					} else {
+						nid = IP(1, 100+k).String()
+					}
+					for _, n := range st.Pre.Nodes {
+						if n.ID == nid {
+							onto = true
+						}
+					}
+				}
+				if (owned > 1 || onto) && !own {
 					cp := *op
 					cp.Takeover = 0
 					op = &cp
